@@ -83,6 +83,20 @@ def query(ctx, reader, fake, ids, start, end, now, flt, tag):
                 ctx.violation('time-window listing in random order with limit %d (>= the %d recordings of the window) returned %d ids (%d distinct)' % (
                     limit, len(exp), len(rnd), len(set(rnd))), dict(desc, limit=limit))
                 break
+    if len(exp) >= 2 and not getattr(fake, 'fail_reads', None):
+        # the same window in stored order with limits below, at and above the number of recordings in it: min(limit, matches) distinct
+        # recordings, all of them of the window (which ones is the store's business)
+        for limit in sorted(set([1, len(exp) - 1, len(exp), (2 * len(exp) + 2) // 3, len(exp) + 2])):
+            try:
+                lim = list(reader.iter_recording_ids(CAT[0], start_date=start, end_date=end, metadata=flt, limit=limit))
+            except Exception as ex:
+                ctx.violation('limited time-window listing raised %s' % type(ex).__name__, dict(desc, limit=limit))
+                break
+            ctx.count('ordered_limited_queries')
+            if len(lim) != min(limit, len(exp)) or len(set(lim)) != len(lim) or not set(lim) <= exp:
+                ctx.violation('time-window listing with limit %d over a window of %d recordings returned %d ids (%d distinct, %d outside the window)' % (
+                    limit, len(exp), len(lim), len(set(lim)), len(set(lim) - exp)), dict(desc, limit=limit))
+                break
     if len(exp) >= 2 and (len(exp) + len(ids)) % 4 == 1 and not getattr(fake, 'fail_reads', None):
         # the lookup is started inside a with-block / before close() of the (reading) cassette and consumed afterwards: closing a
         # non-transient reading cassette is a no-op, the lazy lookup goes on
